@@ -555,5 +555,7 @@ func extractC04() *lean {
 		mpBody = strings.Join(strings.Fields(c04Src(fd.Body)), " ")
 	}
 	l.def("matchesPathBody", "String", fmt.Sprintf("%q", mpBody), mpBody)
+	extractC04Limiter(l, eng)
+	extractC04KeysAndJti(l, akF, mw)
 	return l
 }
